@@ -23,13 +23,13 @@ PROP = 'C10'
 RULE = (
     'for each of the catalogue entries (lib/schemas.py) Hypothesis draws argument patterns (binders, applications, symbols, mu, '
     'constrained metavariables, pending substitutions, nested notation) and premises (declared axioms of the required shape or '
-    'nested applications, depth <= 3). non-trivial = application with at least one non-metavariable argument containing a binder, '
+    'nested applications, depth <= 3); argument aliasing (the same pattern for several schema variables) in a share of the cases; the parametric entry points and the six match-based rules have their own generators. non-trivial = application with at least one non-metavariable argument containing a binder, '
     'application or notation; distinct by (entry, arguments)'
 )
 ASSUME = [
     'advertised schemas transcribed by hand from the docstrings into lib/schemas.py',
     'arguments are documented-well-formed patterns; reference machine (lib/refmachine.py) is the replay oracle',
-    'imp_trans_match1/2, equiv_match_l/r, equiv_trans_match1/2 (matching-driven helpers without an advertised schema) are exercised only through their callers',
+    'imp_trans_match1/2, equiv_match_l/r, equiv_trans_match1/2 ("same as (imp|equiv)_transitivity but hN is instantiated to match"): premises are declared axioms related by an instantiation sigma of a substitution-free pattern B (closed in a third of the cases); expected conclusion = the transitivity schema with the matched premise instantiated by sigma restricted to the metavariables of B',
 ]
 CFG = H.CFG
 ALLOWED_RULES = {'EVar', 'SVar', 'Symbol', 'Implies', 'App', 'Mu', 'Exists', 'MetaVar', 'CleanMetaVar', 'ESubst', 'SSubst',
@@ -95,6 +95,30 @@ def check_module(module, thunks, expected, descr, case, stats_classes):
 PARAM_KINDS = ['conjunction_implies_nth', 'or_move_to_front', 'and_move_to_front', 'reduce_n', 'merge_clauses', 'trivial_clause']
 
 
+MATCH_RULES = ['imp_trans_match1', 'imp_trans_match2', 'equiv_match_l', 'equiv_match_r', 'equiv_trans_match1', 'equiv_trans_match2']
+CFG_M = gens.Cfg(ids=(0, 1, 2), nsyms=2, subst=False, constraints=False, meta_weight=5)
+CFG_CLOSED = gens.Cfg(ids=(0, 1, 2), nsyms=2, meta=False, subst=False)
+
+
+@st.composite
+def match_cases(draw, which=None):
+    """The match-based rules of the tautology library ("same as imp_transitivity / equiv_transitivity but hN is instantiated
+    to match"): premise shapes related by an instantiation sigma of the substitution-free, possibly closed, pattern B."""
+    which = which or draw(st.sampled_from(MATCH_RULES))
+
+    def pat(cfg, d):
+        for _ in range(4):
+            t = gens.draw_sugared(draw, cfg, draw(st.integers(0, d)), H.pool()[0], False, H.pool()[2])
+            if gens.sugared_well_formed(t, H.pool()[2]): return t
+        return ('m', 0, (), (), (), (), ()) if cfg.meta else ('e', 0)
+
+    closed_b = draw(st.integers(0, 2)) == 0
+    B = pat(CFG_CLOSED if closed_b else CFG_M, 2)
+    A = pat(CFG_M, 1); D = pat(CFG_M, 1)
+    sigma = [(k, pat(draw(st.sampled_from([CFG_M, CFG_CLOSED])), 1)) for k in sorted(draw(st.sets(st.sampled_from((0, 1, 2)), max_size=3)))]
+    return {'kind': 'match', 'which': which, 'A': A, 'B': B, 'D': D, 'sigma': sigma}
+
+
 @st.composite
 def cases(draw, only=None, param=None):
     kind = draw(st.integers(0, 19))
@@ -130,6 +154,9 @@ def cases(draw, only=None, param=None):
 
 
 def case_json(c):
+    if c['kind'] == 'match':
+        sj = gens.sugared_to_json
+        return {'kind': 'match', 'which': c['which'], 'A': sj(c['A']), 'B': sj(c['B']), 'D': sj(c['D']), 'sigma': [[k, sj(v)] for k, v in c['sigma']]}
     if c['kind'] == 'app':
         return {'kind': 'app', 'app': c['app'].to_json()}
     out = dict(c)
@@ -144,6 +171,9 @@ def case_from_json(j):
     if j['kind'] == 'app':
         return {'kind': 'app', 'app': S.App.from_json(j['app'])}
     by_label = notations.registry()[1]
+    if j['kind'] == 'match':
+        sf = lambda t: gens.sugared_from_json(t, by_label)
+        return {'kind': 'match', 'which': j['which'], 'A': sf(j['A']), 'B': sf(j['B']), 'D': sf(j['D']), 'sigma': [(k, sf(v)) for k, v in j['sigma']]}
     out = dict(j)
     out['terms'] = [gens.sugared_from_json(t, by_label) for t in j['terms']]
     if 'right' in j: out['right'] = gens.sugared_from_json(j['right'], by_label)
@@ -169,6 +199,8 @@ def body(c, stats: Stats):
         stats.case(repr(cj), nt, ['entry-' + n for n in set(app.entries())] + ['depth-%d' % app.depth(), 'top-' + app.entry.name],
                    dict(app.describe(), proof_bytes=plen))
         return
+    if c['kind'] == 'match':
+        return match_body(c, cj, stats, defs)
     # parametric entry points
     from proof_generation.proof import ProofExp
     from proof_generation.tautology import Tautology
@@ -211,6 +243,46 @@ def body(c, stats: Stats):
     stats.case(repr(cj), n >= 2 or which == 'trivial_clause', ['entry-' + which, 'param'], {'entry': which, 'terms': [gens.show_sugared(t) for t in c['terms']], 'proof_bytes': plen})
 
 
+def match_body(c, cj, stats, defs):
+    from proof_generation.proof import ProofExp
+    from proof_generation.tautology import Tautology
+
+    which = c['which']
+    ex = lambda t: gens.expand_sugared(t, defs)
+    eA, eB, eD = ex(c['A']), ex(c['B']), ex(c['D'])
+    sig = {k: ex(v) for k, v in c['sigma']}
+    sigB = {k: v for k, v in sig.items() if k in R.metavars(eB)}     # what matching B against B.sigma can (and must) find
+    inst = lambda t, s_: R.instantiate(t, s_)
+    sug_inst = lambda t: ('inst', t, tuple(c['sigma'])) if c['sigma'] else t
+    eq = which.startswith('equiv')
+    conn = S.Equiv if eq else S.I
+    econn = R.EQUIV if eq else R.I
+    if which in ('imp_trans_match1', 'equiv_trans_match1'):
+        prem = [conn(c['A'], c['B']), conn(sug_inst(c['B']), c['D'])]; exp = econn(inst(eA, sigB), eD)
+    elif which in ('imp_trans_match2', 'equiv_trans_match2'):
+        prem = [conn(c['A'], sug_inst(c['B'])), conn(c['B'], c['D'])]; exp = econn(eA, inst(eD, sigB))
+    elif which == 'equiv_match_l':
+        prem = [conn(c['B'], c['D'])]; exp = econn(inst(eB, sigB), inst(eD, sigB))
+    else:
+        prem = [conn(c['D'], c['B'])]; exp = econn(inst(eD, sigB), inst(eB, sigB))
+    module = ProofExp()
+    taut = module.import_module(Tautology())
+    rp = [gens.build_repo(t) for t in prem]
+    descr = '%s(%s)' % (which, ', '.join(gens.show_sugared(t) for t in prem)) + ((' matched against ' + gens.show_sugared(sug_inst(c['B']))) if which.startswith('equiv_match') else '')
+    try:
+        for a_ in rp: module.add_axiom(a_)
+        hs = [module.load_axiom(a_) for a_ in rp]
+        if which.startswith('equiv_match'):
+            th = getattr(taut, which)(hs[0], gens.build_repo(sug_inst(c['B'])))
+        else:
+            th = getattr(taut, which)(hs[0], hs[1])
+    except Exception as e:
+        raise Violation('%s: building the proof expression raised %s: %s' % (descr, type(e).__name__, str(e)[:300]), cj, 'build-raise')
+    plen = check_module(module, [th], [exp], descr, cj, None)
+    stats.case(repr(cj), True, ['entry-' + which, 'match-rule', 'match-closed-pattern' if not R.metavars(eB) else 'match-open-pattern'] + (['match-empty-solution'] if not sigB else []),
+               {'entry': which, 'premises': [gens.show_sugared(t) for t in prem], 'proof_bytes': plen})
+
+
 def shard(stats: Stats, shard_i, nshards, seed, tier):
     per_entry, mix = {'quick': (12, 60), 'thorough': (400, 2500)}[tier]
     # every catalogue entry gets its own budget (uniform coverage), then a random mix incl. parametric entry points
@@ -224,6 +296,11 @@ def shard(stats: Stats, shard_i, nshards, seed, tier):
         if (idx + 7) % nshards == shard_i:
             budget = per_entry * (4 if which in ('conjunction_implies_nth', 'merge_clauses') else 1)
             common.run_given(stats, common.derive_seed(seed, which), budget, cases(param=which), body)
+            if stats.violations:
+                return
+    for idx, which in enumerate(MATCH_RULES):
+        if (idx + 3) % nshards == shard_i:
+            common.run_given(stats, common.derive_seed(seed, which), per_entry * 3, match_cases(which), body)
             if stats.violations:
                 return
     common.run_given(stats, seed, mix, cases(), body)
